@@ -20,6 +20,22 @@ def spec(tier):
                               fixed=dict(cfg=cfg, ram=25, da=2), timeout=1500))
                 obs.append(CH(name=nm + "_ram", harness="sched.priority", sym=dict(ram=I(2, 45), ma=I(1, 6), tb=I(1, 4)),
                               fixed=dict(cfg=cfg, cpus=2, ta=1, da=2), timeout=1500))
+    # three query pipelines (two multi-operator query containers next to each other, a third query waiting)
+    cfg = dict(algo="priority", pools=1, multi=True, K=K,
+               pipes=[pipe("chain3", prio=1, at=0, durs=[2, "da", 1]), pipe("chain2", prio=1, at=0, durs=[1, 3]), pipe("chain2", prio=1, at="tb", durs=[2, 1]),
+                      pipe("chain2", prio=3, at=0, durs=[1, 2])])
+    obs.append(CH(name="prio_three_queries", harness="sched.priority", sym=dict(cpus=I(1, 6), tb=I(0, 3), da=I(1, 2)),
+                  fixed=dict(cfg=cfg, ram=20, ma=1), timeout=1500))
+    # two waiting queries, two preemptible batch containers at a boundary in the same round
+    cfg = dict(algo="priority", pools=1, multi=True, K=K,
+               pipes=[pipe("chain2", prio=3, at=0, durs=["da", 3]), pipe("chain2", prio=2, at=0, durs=[1, 3]), pipe("single", prio=1, at="ta", durs=[2]),
+                      pipe("single", prio=1, at="tb", durs=[2])])
+    obs.append(CH(name="prio_two_queries_two_victims", harness="sched.priority", sym=dict(cpus=I(1, 6), ta=I(1, 2), tb=I(1, 2), da=I(1, 2)),
+                  fixed=dict(cfg=cfg, ram=20, ma=1), timeout=1500))
+    if th:
+        cfg2 = dict(cfg, pools=2)
+        obs.append(CH(name="prio_two_queries_two_victims_P2", harness="sched.priority", sym=dict(cpus=I(1, 4), ta=I(1, 2), tb=I(1, 2), da=I(1, 2)),
+                      fixed=dict(cfg=cfg2, ram=20, ma=1), timeout=2400))
     # the shared pool of priority-pool
     for (p1, p2, p3) in ((2, 1, 2), (1, 2, 1)):
         cfg = dict(algo="priority-pool", pools=2, multi=True, K=K,
